@@ -11,8 +11,8 @@ use std::collections::VecDeque;
 #[derive(Clone, Debug)]
 pub struct Profile {
     pub name: &'static str,
-    /// actor weights: builder, differ, graduser, lifetime, flagger, optimizer, retirer, refuser, trainer
-    pub w: [u32; 9],
+    /// actor weights: builder, differ, graduser, lifetime, flagger, optimizer, retirer, refuser, trainer, scenarist
+    pub w: [u32; 10],
     pub custom_pct: u32,
     pub reent_pct: u32,
     pub bcast_pct: u32,
@@ -32,22 +32,22 @@ pub enum ShapeMode {
     Narrow,
 }
 
-pub const ACTORS: [&str; 9] = ["builder", "differ", "graduser", "lifetime", "flagger", "optimizer", "retirer", "refuser", "trainer"];
+pub const ACTORS: [&str; 10] = ["builder", "differ", "graduser", "lifetime", "flagger", "optimizer", "retirer", "refuser", "trainer", "scenarist"];
 
 pub fn profile(name: &str) -> Profile {
-    let base = Profile { name: "C01", w: [50, 14, 4, 10, 6, 0, 2, 1, 0], custom_pct: 20, reent_pct: 10, bcast_pct: 30, smooth_pct: 30, share_pct: 50, max_events: 60, shape: ShapeMode::Mixed, integer_only: false };
+    let base = Profile { name: "C01", w: [50, 14, 4, 10, 6, 0, 2, 1, 0, 3], custom_pct: 20, reent_pct: 10, bcast_pct: 30, smooth_pct: 30, share_pct: 50, max_events: 60, shape: ShapeMode::Mixed, integer_only: false };
     match name {
         "C01" => base,
-        "C03" => Profile { name: "C03", w: [55, 16, 3, 6, 2, 3, 1, 1, 0], custom_pct: 5, reent_pct: 0, bcast_pct: 85, smooth_pct: 0, share_pct: 75, ..base },
-        "C08" => Profile { name: "C08", w: [35, 12, 12, 14, 4, 8, 3, 4, 0], custom_pct: 15, reent_pct: 20, bcast_pct: 20, smooth_pct: 20, share_pct: 60, shape: ShapeMode::Narrow, ..base },
-        "C09" => Profile { name: "C09", w: [40, 14, 6, 8, 24, 1, 6, 1, 0], custom_pct: 15, reent_pct: 10, bcast_pct: 15, smooth_pct: 20, share_pct: 60, ..base },
-        "C10" => Profile { name: "C10", w: [34, 28, 12, 10, 5, 0, 2, 2, 0], custom_pct: 20, reent_pct: 15, bcast_pct: 20, smooth_pct: 25, share_pct: 70, shape: ShapeMode::Narrow, ..base },
-        "C11" => Profile { name: "C11", w: [55, 16, 3, 8, 4, 0, 1, 0, 0], custom_pct: 90, reent_pct: 25, bcast_pct: 0, smooth_pct: 0, share_pct: 80, shape: ShapeMode::Narrow, ..base },
-        "C12" => Profile { name: "C12", w: [50, 16, 8, 0, 5, 0, 0, 0, 0], custom_pct: 15, reent_pct: 5, bcast_pct: 20, smooth_pct: 30, share_pct: 65, max_events: 30, ..base },
-        "C13" => Profile { name: "C13", w: [34, 18, 8, 6, 3, 22, 2, 1, 0], custom_pct: 5, reent_pct: 0, bcast_pct: 25, smooth_pct: 40, share_pct: 60, ..base },
-        "C17" => Profile { name: "C17", w: [48, 20, 8, 8, 5, 0, 1, 1, 0], custom_pct: 15, reent_pct: 5, bcast_pct: 20, smooth_pct: 40, share_pct: 60, max_events: 40, ..base },
-        "C14" => Profile { name: "C14", w: [10, 4, 4, 6, 2, 0, 3, 1, 70], custom_pct: 5, reent_pct: 0, bcast_pct: 10, smooth_pct: 100, share_pct: 50, max_events: 90, shape: ShapeMode::Narrow, ..base },
-        "C18" => Profile { name: "C18", w: [38, 14, 8, 16, 4, 4, 16, 2, 0], custom_pct: 15, reent_pct: 10, bcast_pct: 15, smooth_pct: 20, share_pct: 60, ..base },
+        "C03" => Profile { name: "C03", w: [55, 16, 3, 6, 2, 3, 1, 1, 0, 5], custom_pct: 5, reent_pct: 0, bcast_pct: 85, smooth_pct: 0, share_pct: 75, ..base },
+        "C08" => Profile { name: "C08", w: [35, 12, 12, 14, 4, 8, 3, 4, 0, 6], custom_pct: 15, reent_pct: 20, bcast_pct: 20, smooth_pct: 20, share_pct: 60, shape: ShapeMode::Narrow, ..base },
+        "C09" => Profile { name: "C09", w: [40, 14, 6, 8, 24, 1, 6, 1, 0, 2], custom_pct: 15, reent_pct: 10, bcast_pct: 15, smooth_pct: 20, share_pct: 60, ..base },
+        "C10" => Profile { name: "C10", w: [34, 28, 12, 10, 5, 0, 2, 2, 0, 4], custom_pct: 20, reent_pct: 15, bcast_pct: 20, smooth_pct: 25, share_pct: 70, shape: ShapeMode::Narrow, ..base },
+        "C11" => Profile { name: "C11", w: [55, 16, 3, 8, 4, 0, 1, 0, 0, 8], custom_pct: 90, reent_pct: 25, bcast_pct: 0, smooth_pct: 0, share_pct: 80, shape: ShapeMode::Narrow, ..base },
+        "C12" => Profile { name: "C12", w: [50, 16, 8, 0, 5, 0, 0, 0, 0, 0], custom_pct: 15, reent_pct: 5, bcast_pct: 20, smooth_pct: 30, share_pct: 65, max_events: 30, ..base },
+        "C13" => Profile { name: "C13", w: [34, 18, 8, 6, 3, 22, 2, 1, 0, 5], custom_pct: 5, reent_pct: 0, bcast_pct: 25, smooth_pct: 40, share_pct: 60, ..base },
+        "C17" => Profile { name: "C17", w: [48, 20, 8, 8, 5, 0, 1, 1, 0, 2], custom_pct: 15, reent_pct: 5, bcast_pct: 20, smooth_pct: 40, share_pct: 60, max_events: 40, ..base },
+        "C14" => Profile { name: "C14", w: [10, 4, 4, 6, 2, 0, 3, 1, 70, 0], custom_pct: 5, reent_pct: 0, bcast_pct: 10, smooth_pct: 100, share_pct: 50, max_events: 90, shape: ShapeMode::Narrow, ..base },
+        "C18" => Profile { name: "C18", w: [38, 14, 8, 16, 4, 4, 16, 2, 0, 3], custom_pct: 15, reent_pct: 10, bcast_pct: 15, smooth_pct: 20, share_pct: 60, ..base },
         _ => base,
     }
 }
@@ -68,6 +68,9 @@ pub struct Gen {
     pub actor_log: Vec<&'static str>,
     pub trains_left: u32,
     pub train_kind_conv: bool,
+    pub last_stack: Option<(Vec<LayerSpec>, CostKind)>,
+    /// thorough tier: allow the deepest chains
+    pub deep: bool,
 }
 
 const V_ADD: u8 = 0;
@@ -138,7 +141,7 @@ impl Gen {
         }
         let max_events = p.max_events / 2 + rng.below(p.max_events / 2 + 1);
         let faults_enabled = [rng.chance(3, 4), rng.chance(3, 4), rng.chance(3, 4), rng.chance(3, 4)];
-        Gen { rng, p, regime, queue: VecDeque::new(), next_slot: 0, emitted: 0, max_events, actors, vocab, base_dims, last_actor: "", faults_enabled, actor_log: Vec::new(), trains_left: 2, train_kind_conv: false }
+        Gen { rng, p, regime, queue: VecDeque::new(), next_slot: 0, emitted: 0, max_events, actors, vocab, base_dims, last_actor: "", faults_enabled, actor_log: Vec::new(), trains_left: 2, train_kind_conv: false, last_stack: None, deep: false }
     }
 
     fn fresh_slot(&mut self) -> Slot {
@@ -340,7 +343,7 @@ impl Gen {
             V_NEG | V_SCALE | V_RELU | V_RECIP | V_LN | V_EXP | V_POWF | V_SIGMOID | V_SOFTMAX => {
                 let op = match k {
                     V_NEG => Op::Neg,
-                    V_SCALE => Op::Scale(if self.regime == Regime::Int { *self.rng.pick(&[-2.0, 2.0, 3.0, -1.0]) } else { *self.rng.pick(&[0.5, -1.5, 2.0, 0.25]) }),
+                    V_SCALE => Op::Scale(if self.regime == Regime::Int { *self.rng.pick(&[-2.0, 2.0, 3.0, -1.0, 1.0, 1.0, 0.0]) } else { *self.rng.pick(&[0.5, -1.5, 2.0, 0.25, 1.0, 0.0]) }),
                     V_RELU => Op::Relu,
                     V_RECIP => Op::Recip,
                     V_LN => Op::Ln,
@@ -411,11 +414,22 @@ impl Gen {
                 };
                 let mut args = vec![a, b];
                 if self.rng.chance(1, 2) {
-                    let cd = match self.rng.weighted(&[50, 20, 15, 15]) {
+                    let lead: Vec<usize> = if ad.len() == 3 { vec![ad[0]] } else if bd.len() == 3 { vec![bd[0]] } else { vec![] };
+                    let cd = match self.rng.weighted(&[40, 18, 14, 12, 16]) {
                         0 => vec![cols],
                         1 => vec![rows, cols],
                         2 => vec![1, cols],
-                        _ => vec![1],
+                        3 => vec![1],
+                        _ => {
+                            // an additive term with its own leading (batch) dimensions
+                            let mut d = if lead.is_empty() || self.rng.chance(1, 3) { vec![1] } else { lead.clone() };
+                            d.push(if self.rng.chance(1, 2) { 1 } else { rows });
+                            d.push(cols);
+                            if lead.is_empty() {
+                                d.remove(0);
+                            }
+                            d
+                        }
                     };
                     let c = match if share { self.live_where(sim, |sm, s| Self::dims_of(sm, s) == cd) } else { None } {
                         Some(c) => c,
@@ -590,7 +604,10 @@ impl Gen {
             }
             Regime::Smooth => *self.rng.pick(&[0.5, 0.125, 0.0625, 1.0, 0.0]),
         };
-        vec![Ev::Update { slots: uniq, lr }]
+        // sometimes one of two persistent optimizer objects, sometimes a fresh one; sometimes observers keep the old handles
+        let opt = if self.rng.chance(55, 100) { Some(self.rng.below(2)) } else { None };
+        let keep_stale = self.rng.chance(1, 2);
+        vec![Ev::Update { slots: uniq, lr, opt, keep_stale }]
     }
 
     fn retirer(&mut self, sim: &Sim) -> Vec<Ev> {
@@ -698,12 +715,37 @@ impl Gen {
                     return vec![];
                 }
                 self.trains_left -= 1;
-                let (layers, cost) = self.layer_stack();
+                // the second model of a run often has the same architecture (fresh values) as the first
+                let (layers, cost) = match (&self.last_stack, self.rng.chance(60, 100)) {
+                    (Some((l, c)), true) => {
+                        let c = *c;
+                        let mut l = l.clone();
+                        for spec in l.iter_mut() {
+                            match spec {
+                                LayerSpec::Dense { w, b, .. } | LayerSpec::Conv { w, b, .. } => {
+                                    for x in w.iter_mut().chain(b.iter_mut()) {
+                                        *x = self.rng.range(-8, 8) as f64 / 8.0;
+                                    }
+                                }
+                            }
+                        }
+                        (l, c)
+                    }
+                    _ => self.layer_stack(),
+                };
+                self.last_stack = Some((layers.clone(), cost));
                 let lr = *self.rng.pick(&[0.5, 0.125, 0.0625, 0.25, 1.0, 0.0]);
-                vec![Ev::TrainOpen { layers, cost, lr }, Ev::ModelOpen]
+                let opt = if self.rng.chance(1, 2) { Some(7) } else { None };
+                let mut v = vec![Ev::TrainOpen { layers, cost, lr, opt }];
+                if self.rng.chance(15, 100) {
+                    v.push(Ev::Freeze { layer: self.rng.below(2), param: self.rng.below(2), on: true });
+                }
+                v.push(Ev::ModelOpen);
+                v
             }
-            1 => match self.rng.weighted(&[70, 20, 10]) {
+            1 => match self.rng.weighted(&[60, 18, 10, 12]) {
                 0 => vec![Ev::ModelOpen],
+                3 => vec![Ev::Freeze { layer: self.rng.below(sim.train_layer_count.max(1)), param: self.rng.below(2), on: self.rng.chance(2, 3) }],
                 1 => {
                     let n = sim.train_param_count;
                     let dst: Vec<Slot> = (0..n).map(|_| self.fresh_slot()).collect();
@@ -726,12 +768,139 @@ impl Gen {
                     return vec![Ev::Bwd { dims: od, vals }];
                 }
                 match self.batch_for(sim) {
-                    Some((dims, vals)) => vec![Ev::Fwd { dims, vals, keep_output: self.rng.chance(25, 100), twice: self.rng.chance(6, 100) }],
+                    Some((dims, vals)) => {
+                        let input_slot = if self.rng.chance(30, 100) { Some(self.fresh_slot()) } else { None };
+                        vec![Ev::Fwd { dims, vals, keep_output: self.rng.chance(25, 100), twice: self.rng.chance(6, 100), input_slot }]
+                    }
                     None => vec![],
                 }
             }
-            _ => vec![Ev::Upd],
+            _ => {
+                // sometimes an evaluation forward between backward and update
+                if self.rng.chance(10, 100) {
+                    if let Some((dims, vals)) = self.batch_for(sim) {
+                        let input_slot = if self.rng.chance(30, 100) { Some(self.fresh_slot()) } else { None };
+                        return vec![Ev::Fwd { dims, vals, keep_output: self.rng.chance(20, 100), twice: false, input_slot }];
+                    }
+                }
+                vec![Ev::Upd]
+            }
         }
+    }
+
+    /// Structurally interesting motifs (shapes and values still seeded), so that the scenarios the
+    /// properties name are reached in every batch rather than by luck.
+    fn scenarist(&mut self, _sim: &Sim) -> Vec<Ev> {
+        let mut v = Vec::new();
+        match self.rng.weighted(&[20, 20, 15, 25, 20]) {
+            0 => {
+                // a view taken while the array was untracked; later the array is trained and updated
+                let n = 2 + self.rng.below(5);
+                let l = self.fresh_slot();
+                let view = self.fresh_slot();
+                let r = self.fresh_slot();
+                let vals = self.leaf_vals(n);
+                v.push(Ev::Leaf { dst: l, dims: vec![n], vals, mode: LeafMode::Plain });
+                v.push(Ev::Build { dst: view, op: Op::Reshape(vec![1, n]), args: vec![l] });
+                v.push(Ev::Flag { slot: l, f: FlagOp::Tracked });
+                v.push(Ev::Build { dst: r, op: Op::Mul, args: vec![l, l] });
+                v.push(Ev::Pass { root: r, seed: Seed::None, via_clone: false });
+                v.push(Ev::DropSlot { slot: r });
+                let opt = if self.rng.chance(1, 2) { Some(self.rng.below(2)) } else { None };
+                v.push(Ev::Update { slots: vec![l], lr: if self.regime == Regime::Int { 1.0 } else { 0.5 }, opt, keep_stale: false });
+            }
+            1 => {
+                // a bias shared by two dense-style products over a batch, then an update of all parameters
+                let (bt, n) = (2 + self.rng.below(3), 1 + self.rng.below(3));
+                let (x, w, w2, b) = (self.fresh_slot(), self.fresh_slot(), self.fresh_slot(), self.fresh_slot());
+                let (h, y) = (self.fresh_slot(), self.fresh_slot());
+                let xv = self.leaf_vals(bt * n);
+                let wv = self.leaf_vals(n * n);
+                let w2v = self.leaf_vals(n * n);
+                let bv = self.leaf_vals(n);
+                v.push(Ev::Leaf { dst: x, dims: vec![bt, n], vals: xv, mode: LeafMode::Plain });
+                v.push(Ev::Leaf { dst: w, dims: vec![n, n], vals: wv, mode: LeafMode::Tracked });
+                v.push(Ev::Leaf { dst: w2, dims: vec![n, n], vals: w2v, mode: LeafMode::Tracked });
+                v.push(Ev::Leaf { dst: b, dims: vec![n], vals: bv, mode: LeafMode::Tracked });
+                v.push(Ev::Build { dst: h, op: Op::Matmul { ta: false, tb: true }, args: vec![x, w, b] });
+                v.push(Ev::Build { dst: y, op: Op::Matmul { ta: false, tb: true }, args: vec![h, w2, b] });
+                v.push(Ev::Pass { root: y, seed: Seed::None, via_clone: false });
+                let mut ps = vec![b, w, w2];
+                self.rng.shuffle(&mut ps);
+                v.push(Ev::Update { slots: ps, lr: if self.regime == Regime::Int { 1.0 } else { 0.25 }, opt: Some(self.rng.below(2)), keep_stale: self.rng.chance(1, 2) });
+            }
+            2 => {
+                // interior node, then an enclosing result, then the interior node again
+                let n = 1 + self.rng.below(4);
+                let (a, b, c, d) = (self.fresh_slot(), self.fresh_slot(), self.fresh_slot(), self.fresh_slot());
+                let av = self.leaf_vals(n);
+                let bv = self.leaf_vals(n);
+                v.push(Ev::Leaf { dst: a, dims: vec![n], vals: av, mode: LeafMode::Tracked });
+                v.push(Ev::Leaf { dst: b, dims: vec![n], vals: bv, mode: LeafMode::Tracked });
+                v.push(Ev::Build { dst: c, op: Op::Mul, args: vec![a, b] });
+                v.push(Ev::Build { dst: d, op: Op::Add, args: vec![c, a] });
+                let mut order = vec![c, d, c, d];
+                self.rng.shuffle(&mut order);
+                for r in order.into_iter().take(2 + self.rng.below(3)) {
+                    let seed = self.seed_for(n);
+                    v.push(Ev::Pass { root: r, seed, via_clone: self.rng.chance(1, 5) });
+                }
+            }
+            3 => {
+                // a chain in which every level consumes the previous one twice (2^depth paths); the
+                // self-average keeps values and adjoints at exactly 1x
+                let depth = match self.rng.weighted(&[62, 28, 8, 2]) {
+                    0 => 4 + self.rng.below(12),
+                    1 => 16 + self.rng.below(48),
+                    2 => 64 + self.rng.below(64),
+                    _ => 128 + self.rng.below(if self.deep { 896 } else { 128 }),
+                };
+                let n = 1 + self.rng.below(3);
+                let mut cur = self.fresh_slot();
+                let vals = self.leaf_vals(n);
+                v.push(Ev::Leaf { dst: cur, dims: vec![n], vals, mode: LeafMode::Tracked });
+                let custom = self.p.custom_pct >= 50 || self.rng.chance(1, 2);
+                for _ in 0..depth {
+                    let next = if self.rng.chance(1, 3) { cur } else { self.fresh_slot() };
+                    let op = if custom { Op::Custom { kind: CustomKind::Lin, coef: vec![0.5, 0.5], script: vec![] } } else { Op::Axpy(1.0) };
+                    if custom {
+                        v.push(Ev::Build { dst: next, op, args: vec![cur, cur] });
+                    } else {
+                        // (c + c) * 0.5 with built-in operations
+                        let t = self.fresh_slot();
+                        v.push(Ev::Build { dst: t, op, args: vec![cur, cur] });
+                        v.push(Ev::Build { dst: next, op: Op::Scale(0.5), args: vec![t] });
+                        v.push(Ev::DropSlot { slot: t });
+                    }
+                    if next != cur && self.rng.chance(1, 2) {
+                        v.push(Ev::DropSlot { slot: cur });
+                    }
+                    cur = next;
+                }
+                let seed = self.seed_for(n);
+                v.push(Ev::Pass { root: cur, seed, via_clone: false });
+            }
+            _ => {
+                // a ladder of diamonds made of user operations with permuted operands
+                let n = 1 + self.rng.below(3);
+                let rungs = 2 + self.rng.below(5);
+                let mut cur = self.fresh_slot();
+                let vals = self.leaf_vals(n);
+                v.push(Ev::Leaf { dst: cur, dims: vec![n], vals, mode: LeafMode::Tracked });
+                for _ in 0..rungs {
+                    let (l, r, j) = (self.fresh_slot(), self.fresh_slot(), self.fresh_slot());
+                    v.push(Ev::Build { dst: l, op: Op::Custom { kind: CustomKind::Lin, coef: vec![2.0], script: vec![] }, args: vec![cur] });
+                    v.push(Ev::Build { dst: r, op: Op::Custom { kind: CustomKind::Lin, coef: vec![-1.0, 1.0], script: vec![] }, args: vec![cur, cur] });
+                    let mut args = vec![l, r, cur];
+                    self.rng.shuffle(&mut args);
+                    v.push(Ev::Build { dst: j, op: Op::Custom { kind: CustomKind::Lin, coef: vec![1.0, 1.0, 1.0], script: self.script(_sim) }, args });
+                    cur = j;
+                }
+                let seed = self.seed_for(n);
+                v.push(Ev::Pass { root: cur, seed, via_clone: false });
+            }
+        }
+        v
     }
 
     fn refuser(&mut self, sim: &Sim) -> Vec<Ev> {
@@ -788,7 +957,8 @@ impl Gen {
                 5 => self.optimizer(sim),
                 6 => self.retirer(sim),
                 7 => self.refuser(sim),
-                _ => self.trainer(sim),
+                8 => self.trainer(sim),
+                _ => self.scenarist(sim),
             };
             if evs.is_empty() {
                 continue;
